@@ -59,9 +59,16 @@ def _merge(lists):
 
 
 def _to_script(equation: str) -> str:
-    e = equation.replace('[t]', '[0]')
-    e = re.sub(r'\[t([+-])(\d+)\]', lambda m: f'[{m.group(1)}{m.group(2)}]', e)
-    return e
+    """[t] -> [0], [t-k] -> [-k], [t+k] -> [+k] -- outside verbatim (backticked) fragments, which are code, not terms."""
+    parts = re.split(r'(`[^`]*`)', equation)
+    out = []
+    for part in parts:
+        if part.startswith('`'):
+            out.append(part)
+            continue
+        e = part.replace('[t]', '[0]')
+        out.append(re.sub(r'\[t([+-])(\d+)\]', lambda m: f'[{m.group(1)}{m.group(2)}]', e))
+    return ''.join(out)
 
 
 def work(item) -> Dict[str, Any]:
